@@ -146,17 +146,38 @@ func keyCmpEdge(fs *FuncSrc, cond ast.Expr, truth bool) []string {
 			return []string{"@diff"}
 		}
 	}
+	return []string{condLabel(cond, truth)}
+}
+
+var condByPos = map[token.Pos]ast.Expr{}
+
+// condLabel is the generic branch fact "@cond:T|F:<pos>:<text>"; the expression is
+// remembered so that rules can evaluate it instead of looking at its text.
+func condLabel(cond ast.Expr, truth bool) string {
 	t := "T"
 	if !truth {
 		t = "F"
 	}
-	return []string{fmt.Sprintf("@cond:%s:%d:%s", t, cond.Pos(), exprStr(cond))}
+	condByPos[cond.Pos()] = cond
+	return fmt.Sprintf("@cond:%s:%d:%s", t, cond.Pos(), exprStr(cond))
+}
+
+type brFact struct {
+	Truth bool
+	Expr  ast.Expr
+}
+
+func (f brFact) String() string {
+	if f.Truth {
+		return "T:" + exprStr(f.Expr)
+	}
+	return "F:" + exprStr(f.Expr)
 }
 
 // condFactsOf lists the generic branch facts in s whose condition lies inside node
-// within (nil = anywhere), as "T:<expr>" / "F:<expr>".
-func condFactsOf(s Set, within ast.Node) []string {
-	var out []string
+// within (nil = anywhere).
+func condFactsOf(s Set, within ast.Node) []brFact {
+	var out []brFact
 	for l := range s {
 		if !strings.HasPrefix(l, "@cond:") {
 			continue
@@ -170,10 +191,41 @@ func condFactsOf(s Set, within ast.Node) []string {
 		if within != nil && (token.Pos(pos) < within.Pos() || token.Pos(pos) > within.End()) {
 			continue
 		}
-		out = append(out, parts[1]+":"+parts[3])
+		e := condByPos[token.Pos(pos)]
+		if e == nil {
+			continue
+		}
+		out = append(out, brFact{parts[1] == "T", e})
 	}
-	sort.Strings(out)
+	sort.Slice(out, func(i, j int) bool { return out[i].Expr.Pos() < out[j].Expr.Pos() })
 	return out
+}
+
+// mentionsField: e contains a selection of field f.
+func mentionsField(info *types.Info, e ast.Expr, f *types.Var) bool {
+	found := false
+	ast.Inspect(e, func(n ast.Node) bool {
+		if x, ok := n.(ast.Expr); ok && FieldOf(info, x) == f {
+			found = true
+		}
+		return !found
+	})
+	return found
+}
+
+// evalWithField evaluates a condition with field f bound to the integer v.
+func evalWithField(info *types.Info, e ast.Expr, f *types.Var, v int64) (bool, bool) {
+	env := &AbsEnv{Info: info, Atom: func(x ast.Expr) (constant.Value, bool) {
+		if FieldOf(info, x) == f {
+			return constant.MakeInt64(v), true
+		}
+		return nil, false
+	}}
+	r := env.expr(e)
+	if r == nil || r.Kind() != constant.Bool {
+		return false, false
+	}
+	return constant.BoolVal(r), true
 }
 
 // perIteration returns a BlockEntry hook that kills the given labels on entry to the
@@ -456,14 +508,9 @@ func checkC07(c *Ctx) string {
 				c.Obl(r1, fs.name+": duplicate check guarded only by 'key changed'", p.Pos(s.Node), s.Before.Has("@diff") && len(facts) == 0,
 					fmt.Sprintf("in update the duplicate check must run exactly when the key changed; guards seen: @diff=%v, other=%v", s.Before.Has("@diff"), facts))
 			} else {
-				// Output: the only guard allowed is the empty-key special case (false edge)
-				ok := true
-				for _, f := range facts {
-					if !strings.HasPrefix(f, "F:") || !strings.Contains(f, "len(") {
-						ok = false
-					}
-				}
-				c.Obl(r1, fs.name+": duplicate check unconditional except for the empty-key case", p.Pos(s.Node), ok, fmt.Sprintf("unexpected guards %v", facts))
+				// Output: the duplicate check is the else-arm of the empty-key test (a conjunction, so no
+				// single condition is known false there); any definite guard means it can be skipped
+				c.Obl(r1, fs.name+": duplicate check unconditional except for the empty-key case", p.Pos(s.Node), len(facts) == 0, fmt.Sprintf("unexpected guards %v", facts))
 			}
 		}
 		for _, le := range res.Loops {
@@ -484,26 +531,33 @@ func checkC07(c *Ctx) string {
 				call := s.Node.(*ast.CallExpr)
 				if len(call.Args) == 4 && isEmptyStr(fs.Info(), call.Args[2]) && isEmptyStr(fs.Info(), call.Args[3]) {
 					nEmpty++
-					// dominated by the F edge of a Nrows > 0 test whose T edge panics
+					// dominated by the false edge of a test on Nrows that is true exactly when a row exists
 					guard := false
 					for _, f := range condFactsOf(s.Before, nil) {
-						if strings.HasPrefix(f, "F:") && strings.Contains(f, "Nrows > 0") {
+						if f.Truth || !mentionsField(fs.Info(), f.Expr, nrows) {
+							continue
+						}
+						v0, ok0 := evalWithField(fs.Info(), f.Expr, nrows, 0)
+						v1, ok1 := evalWithField(fs.Info(), f.Expr, nrows, 1)
+						v2, ok2 := evalWithField(fs.Info(), f.Expr, nrows, 2)
+						if ok0 && ok1 && ok2 && !v0 && v1 && v2 {
 							guard = true
 						}
 					}
 					c.Obl(r1, fs.name+": empty key: a second row is refused before the whole-index read is registered", p.Pos(s.Node), guard,
-						"the empty-key branch registers its read without first refusing when the table already has a row")
+						"the empty-key branch registers its read without first refusing (test true for Nrows>=1, false for 0) when the table already has a row")
 				}
 			}
 			c.Floor(r1, nEmpty, 1, "empty-key branches in "+fs.name)
+			np := 0
 			for _, s := range res.Of("panic") {
 				for _, f := range condFactsOf(s.Before, nil) {
-					if strings.HasPrefix(f, "T:") && strings.Contains(f, "Nrows") {
-						ok := strings.Contains(f, "Nrows > 0") || strings.Contains(f, "Nrows >= 1") || strings.Contains(f, "Nrows != 0")
-						c.Obl(r1, fs.name+": empty key: panic exactly when a row exists", p.Pos(s.Node), ok, "guard is "+f)
+					if f.Truth && mentionsField(fs.Info(), f.Expr, nrows) {
+						np++
 					}
 				}
 			}
+			c.Obl(r1, fs.name+": empty key: the refusal is a panic on the true edge of the row-count test", p.Pos(fs.Decl), np >= 1, "no panic guarded by the Nrows test")
 		}
 	}
 	c.Floor(r1, ndup, 2, "dupOutputBlock call sites")
@@ -530,7 +584,8 @@ func checkC07(c *Ctx) string {
 						}
 					}
 				}
-				return []string{fmt.Sprintf("@cond:%s:%d:%s", tf, cond.Pos(), exprStr(cond))}
+				_ = tf
+				return []string{condLabel(cond, truth)}
 			}}
 		res := fl.Analyze(fs)
 		for _, s := range res.Of("Lookup") {
